@@ -15,7 +15,7 @@ EXPLANATION = (
     "or write through an input/output cursor (`*ip++`, `buf[pos++]`, memcpy, fixed-width reads) is "
     "covered by a bound established on every path; sub-buffers handed to callees carry exactly the "
     "remaining length or the callee's declared extent; (2) cursor-skeleton execution of the "
-    "count-driven decoders (bit unpackers for every width 0..32 and count 0..40, PLAIN, "
+    "count-driven decoders (bit unpackers for every width 0..32 and count 0..40 (0..130 in the thorough tier), PLAIN, "
     "BYTE_STREAM_SPLIT): reads inside the bytes the caller checked, writes inside count values; (3) "
     "every variable index into fixed-size decoder state (delta mini-block arrays, RLE group buffer, "
     "Thrift field-id stack) is bounded by a dominating guard, a validated header invariant or a "
@@ -148,7 +148,7 @@ def run(ctx):
     bad = None
     runs = 0
     for w in (1, 3, 7, 8, 13, 17, 31, 32):
-        for n in range(0, 41):
+        for n in range(0, ctx.depth(40, 130) + 1):
             need = (n * w + 7) // 8
             it = Interp(P, fN, budget=600000, max_forks=64, inline_depth=4)
             try:
@@ -168,7 +168,7 @@ def run(ctx):
     ctx.count("unpack_skeleton_runs", runs)
     ctx.ob("R4.skeleton", "unpackN-extent|%s:carquet_bitunpack_32" % BP, P.where(fN.body),
            "carquet_bitunpack_32 reads only ceil(count*width/8) input bytes and writes count values "
-           "(counts 0..40, widths 1..32)", bad is None, bad or "")
+           "(counts 0..%d, widths 1..32)" % ctx.depth(40, 130), bad is None, bad or "")
     C11._plain(ctx)
     C11._bss(ctx)
 
